@@ -454,6 +454,18 @@ def rules_subdef():
     ]
 
 
+def rules_defsubx():
+    """default_subdomain='www': rules on the default subdomain, on another one, and EXPLICITLY on the bare domain"""
+    return [
+        Rule("/x/<v>", endpoint="wx"),                                       # -> www (the map's default)
+        Rule("/y/<v>", endpoint="wy", subdomain="api"),
+        Rule("/z/<v>", endpoint="wz", subdomain=""),                         # the bare server name
+        Rule("/zl/", defaults={"page": 1}, endpoint="wl", subdomain=""),
+        Rule("/zl/<int:page>", endpoint="wl", subdomain=""),
+        Subdomain("", [Submount("/b", [Rule("/k/<v>", endpoint="wk")])]),
+    ]
+
+
 _FEED = [(1, 10), (3, 10), (1, 25), (4, 50), (10, 10)]
 CROSS = {
     # cfg: (rules, map kwargs, bound hosts / subdomains, {endpoint: (list of value dicts, owner(values, bound))})
@@ -471,7 +483,17 @@ CROSS = {
                 "sf": ([{"tenant": "acme", "page": a, "per": c} for a, c in _FEED], lambda v, b: {"acme"}),
                 "sa": ([{"v": x} for x in ("a", "café au lait", "a;b?c#d")], lambda v, b: {"admin"}),
                 "sh": ([{"v": x} for x in ("a", "é b")], lambda v, b: {""})}),
+    # adapters bound with subdomain '' (the bare domain, what bind_to_environ computes for a request to the server
+    # name itself), None (-> the default subdomain), 'www', another and an unrelated one
+    "defsubx": (rules_defsubx, {"default_subdomain": "www"},
+                ["", None, "www", "api", "zzz"],
+                {"wx": ([{"v": x} for x in ("a", "é b")], lambda v, b: {"www"}),
+                 "wy": ([{"v": x} for x in ("a", "a;b?c#d")], lambda v, b: {"api"}),
+                 "wz": ([{"v": x} for x in ("a", "é b", "%2F")], lambda v, b: {""}),
+                 "wl": ([{"page": n} for n in (1, 2, 0)], lambda v, b: {""}),
+                 "wk": ([{"v": x} for x in ("a", "é b")], lambda v, b: {""})}),
 }
+CROSS_DEFAULT_SUB = {"defsubx": "www"}
 # canonical URLs a client may request directly: (owner, path) -> what it denotes
 CROSS_PATHS = {
     "hostdef": [("www.example.com", "/list/", ("hl", {"page": 1})), ("www.example.com", "/list/7", ("hl", {"page": 7})),
@@ -483,13 +505,17 @@ CROSS_PATHS = {
                ("acme", "/v1/feed/", ("sf", {"tenant": "acme", "page": 1, "per": 10})),
                ("acme", "/v1/feed/7", ("sf", {"tenant": "acme", "page": 7, "per": 10})),
                ("", "/home/a", ("sh", {"v": "a"}))],
+    "defsubx": [("", "/z/a", ("wz", {"v": "a"})), ("", "/zl/", ("wl", {"page": 1})), ("", "/zl/0", ("wl", {"page": 0})),
+                ("", "/b/k/a", ("wk", {"v": "a"})), ("www", "/x/a", ("wx", {"v": "a"})), (None, "/x/a", ("wx", {"v": "a"})),
+                ("api", "/y/a", ("wy", {"v": "a"}))],
 }
 
 
 def _cross_bind(m, cfg, where, script, scheme):
     if cfg == "hostdef":
         return m.bind(where, script_name=script, url_scheme=scheme), where
-    return m.bind(SERVER, script_name=script, subdomain=where, url_scheme=scheme), (where + "." if where else "") + SERVER
+    eff = CROSS_DEFAULT_SUB.get(cfg, "") if where is None else where      # None = "not given" -> default_subdomain
+    return m.bind(SERVER, script_name=script, subdomain=where, url_scheme=scheme), (eff + "." if eff else "") + SERVER
 
 
 def cross_round_trip(m, cfg, ep, values, bound, script, fe, scheme):
